@@ -98,11 +98,16 @@ Q_THOROUGH = [P_NAN, P_11, P_31, P_253, P_01, P_FAR, P_OUT, P_HALF]
 
 
 def edge_lists(n_nodes):
-    """Every orientation and every order of every spanning tree on n_nodes (2 -> 2 lists, 3 -> 24)."""
+    """Every orientation and every order of every spanning tree on n_nodes (2 -> 2 lists, 3 -> 24), plus, for 3 nodes,
+    the 6 single-edge lists (one node unconnected)."""
     if n_nodes == 2:
         return [[[0, 1]], [[1, 0]]]
     out = []
     pairs = [(0, 1), (0, 2), (1, 2)]
+    # skeletons in which one node is connected to nothing (its index may be lower than a connected node's)
+    for a, b in pairs:
+        out.append([[a, b]])
+        out.append([[b, a]])
     for tree in itertools.combinations(pairs, 2):  # any 2 of the 3 pairs span 3 nodes
         for order in itertools.permutations(tree):
             for flips in itertools.product((0, 1), repeat=2):
@@ -678,7 +683,7 @@ def run(ctx):
         "family_A_two_node_animals": "all 81x81 ordered point pairs x edge list [(0,1)]; edge list [(1,0)] for "
         + ("the 3321 pairs with index(p)<=index(q)" if ctx.tier == "quick" else "all 81x81 pairs too"),
         "family_B_point_set_Q": [point(p, (8, 12)) for p in Q],
-        "family_B_three_node_animals": f"all {len(Q)}^3 triples x 24 edge lists, plus every arrangement of (outside-left, outside-right, t in Q) (an edge with both endpoints outside whose segment crosses the image)",
+        "family_B_three_node_animals": f"all {len(Q)}^3 triples x 30 edge lists (24 spanning trees + 6 single edges that leave one node unconnected), plus every arrangement of (outside-left, outside-right, t in Q) (an edge with both endpoints outside whose segment crosses the image)",
         "family_C_animals_per_frame": 2 if ctx.tier == "quick" else 3,
         "family_C_lists": {"two_node_animals_pairs": len(a2), "three_node_animals_pairs": len(a3), "two_node_animals_triples": 8 if ctx.tier != "quick" else 0, "three_node_animals_triples": 4 if ctx.tier != "quick" else 0},
         "items_per_family": fam,
